@@ -210,7 +210,7 @@ def inner_names(info, cname):
 # ---------------------------------------------------------------------------------------------------------------
 K_ONLY = "c03-django-only-fill-rendered-in-isolated-inner-context"
 K_LEAK = "c03-loop-variables-forwarded-into-isolated-component"
-K_RECAP = "c03-enclosing-loop-variable-recaptured-over-inner-binder"
+K_RECAP = "c03-forloop-layers-recaptured-over-inner-binders"
 K_ISO_BTW = "c03-isolated-fill-variables-inserted-below-owner-component-data"
 K_DJ_BTW = "c03-django-fill-variables-inserted-above-inner-component-data"
 K_DFLT = "c03-default-alias-rendered-while-fill-variables-are-on-the-context"
@@ -222,8 +222,9 @@ CLASS_TEXT = {
             "(the fill is rendered in the isolated inner context instead of the scope of the tag)",
     K_LEAK: "a component rendered isolated (isolated mode or `only`) stands inside a {% for %} loop, and a component template "
             "reads that loop's variable (not being one of its own variables) or reads forloop outside a loop of its own",
-    K_RECAP: "a {% for %} loop variable shares its name with a with-variable, a fill alias or a component data variable, and "
-             "the program has a fill (FillNode._extract_fill re-captures every enclosing loop layer above the binders between)",
+    K_RECAP: "the program has a {% for %} loop and a fill, and a for- or with-variable shares its name with another with / for / fill-alias / "
+             "component-data variable (FillNode._extract_fill re-captures every context layer containing `forloop` - enclosing loops and the "
+             "variable layers of enclosing fills that stand in a loop - above the binders that lie between)",
     K_ISO_BTW: "isolated mode / `only`: a fill whose component tag is written in a component template has a with/for variable "
                "between tag and fill that shares its name with another binder (or reads forloop of a loop between tag and fill "
                "while the tag stands in a loop of the owner template)",
@@ -279,10 +280,12 @@ def classes(prog, info=None):
                 hit = True
         if hit:
             out.append(K_LEAK)
-    # K_RECAP
-    if have_fill:
-        fors = {s[2] for s in info.sites if s[1] == "for"}
-        if any(n_sites(info, x, ("with", "sd", "df", "data")) for x in fors):
+    # K_RECAP: FillNode._extract_fill copies EVERY layer that contains `forloop` - the layer of an enclosing {% for %}, and the
+    # merged variable layer of an enclosing fill that stands in a loop (it holds that fill's with-variables too) - on top of
+    # the variables captured for the fill
+    if have_fill and any(s[1] == "for" for s in info.sites):
+        lifted = {s[2] for s in info.sites if s[1] in ("for", "with")}
+        if any(n_sites(info, x, ("with", "for", "sd", "df", "data")) > 1 for x in lifted):
             out.append(K_RECAP)
     # K_ISO_BTW / K_DJ_BTW
     for f in info.fills:
